@@ -3,6 +3,7 @@ package main
 import (
 	"encoding/json"
 	"fmt"
+	"math"
 	"math/rand"
 	"sync"
 
@@ -67,6 +68,7 @@ func c19(args []string) error {
 	}
 	_ = first
 	maps := append(fixedMaps(m-1), seededMaps(rng, m-1, nmaps)...)
+	maps = append(maps, oddMaps()...)
 	ptOf := func(i int) (int, int) { return i / m, i % m } // index 0..np-1, same order as Gen_C19!Pt
 
 	var evals, mism int64
@@ -335,5 +337,16 @@ func init() {
 		}
 		printJSON(obj{"got": got})
 		return nil
+	}
+}
+
+// oddMaps: scales that are not powers of two but keep every product exact (inside assumption A-float). Larger odd
+// scales (2^27+1, 3*2^25+7) were tried and dropped: there the products of coordinate differences are inexact and the
+// pinned IntersectsSegment itself misses T-junctions, which is outside the quantifier of C19 (magnitude <= 2^20,
+// arithmetic exact).
+func oddMaps() []Map {
+	return []Map{
+		{"odd:10", 10, 3, -7},
+		{"odd:4097*2^-12", 4097 * math.Ldexp(1, -12), -5, 11},
 	}
 }
